@@ -17,7 +17,7 @@ TECHNIQUE = ('exhaustive depth-first enumeration of operation sequences over '
              'a reference model of the per-ellipsoid records')
 RULE = ('point set = 1..4 Gaussian clusters (drawn sizes, separation, '
         'anisotropy; incl. tiny tight second cluster, blob+halo and coordinates '
-        'of order 1e-70), d=2..5, '
+        'of order 1e-90), d=2..5, '
         'member class Ellipsoid or UnitCubeEllipsoidMixture, n_points_min '
         'drawn, unit True/False; for each point set EVERY operation sequence '
         'of length <= L (4 quick, 6 thorough) is executed by a DFS that '
@@ -48,7 +48,10 @@ def plan(tier):
 
 @st.composite
 def setups(draw):
-    d = draw(st.integers(2, 5))
+    tiny = draw(st.sampled_from([False] * 5 + [True]))
+    # tiny: coordinates of order 1e-90 in d >= 4 put log V below -745, where
+    # exp() underflows: only the logarithms of the volumes are representable
+    d = draw(st.integers(4, 5)) if tiny else draw(st.integers(2, 5))
     k = draw(st.integers(1, 4))
     npm = draw(st.integers(d + 1, d + 12))
     sizes = [draw(st.sampled_from([npm - 2, npm + 1, 2 * npm, 2 * npm + 3,
@@ -63,11 +66,14 @@ def setups(draw):
         ratio=draw(st.sampled_from([1.0, 4.0, 50.0])),
         halo=draw(st.sampled_from([0, 0, 0, 15])),
         member=draw(st.sampled_from(['Ellipsoid', 'Mixture'])),
-        unit=draw(st.booleans()),
+        unit=False if tiny else draw(st.booleans()),
         enlarge=draw(st.sampled_from([1.0, 1.1, 1.5])),
-        # coordinates of order 1e-70 (unit=False only): ellipsoid volumes
+        # coordinates of order 1e-90 (unit=False only): ellipsoid volumes
         # below the smallest double, only their logarithms are representable
-        tiny=draw(st.sampled_from([False] * 5 + [True])),
+        tiny=tiny,
+        # uniformly filled balls: splitting them increases the summed volume,
+        # so the volume test has to refuse (Gaussian blobs never get there)
+        shape=draw(st.sampled_from(['gauss', 'gauss', 'ball'])),
         seed=draw(st.integers(0, 2 ** 32 - 1)))
 
 
@@ -82,12 +88,16 @@ def build_points(s):
         c = base + s['sep'] * j * direction
         axes = s['scale'] * np.exp(-rng.random(d) * np.log(s['ratio']))
         q, _ = np.linalg.qr(rng.normal(size=(d, d)))
-        parts.append(c + (rng.normal(size=(m, d)) * axes) @ q.T)
+        g = rng.normal(size=(m, d))
+        if s.get('shape') == 'ball':
+            g = g / np.linalg.norm(g, axis=1)[:, None] * (
+                rng.random((m, 1)) ** (1.0 / d)) * 2.0
+        parts.append(c + (g * axes) @ q.T)
     if s['halo']:
         parts.append(base + 0.25 * rng.normal(size=(s['halo'], d)))
     x = np.vstack(parts)
     if s.get('tiny') and not s['unit']:
-        return x * 1e-70
+        return x * 1e-90
     if s['unit']:
         x = np.mod(x, 2.0)
         x = np.where(x >= 1.0, 2.0 - x, x)
@@ -372,6 +382,10 @@ def shard(ctx, tier, i, n):
             res.cls('mixture_members', s['member'] != 'Ellipsoid')
             res.cls('unit_false', not s['unit'])
             res.cls('tiny_scale', bool(s.get('tiny')) and not s['unit'])
+            res.cls('ball_shape', s.get('shape') == 'ball')
+            res.cls('split_refused_with_room', outcome == 'refused' and
+                    path[-1] == 'split' and s['sizes'][0] >= 4 * s['npm'] and
+                    len(path) == 1)
             res.nontrivial = 'split_ok' in hist and 'trim_ok' in hist
             ctx.record(dict(setup=s, path=path), res,
                        sample=(nodes[0] % 97 == 1))
